@@ -128,6 +128,18 @@ def cases_for_zone(zone, y0, y1, long_series=False):
     return cases
 
 
+def _bare_usage_pattern(tz, starts):
+    from efootprint.core.country import Country
+    from efootprint.core.hardware.device import Device
+    from efootprint.core.hardware.network import Network
+    from efootprint.core.usage.usage_journey import UsageJourney
+    from efootprint.core.usage.usage_pattern import UsagePattern
+    from efootprint.abstract_modeling_classes.source_objects import SourceValue
+    from efootprint.constants.units import u
+    c = Country("c", "C", SourceValue(100 * u.g / u.kWh), SourceObject(tz))
+    return UsagePattern("up", UsageJourney("uj", []), [Device.from_defaults("d")], Network.from_defaults("n"), c, starts)
+
+
 def h_zone(ctx, zone, y0, y1, long_series=False, max_cases=400):
     tz = pytz.timezone(zone)
     tzobj = SourceObject(tz)
@@ -136,6 +148,14 @@ def h_zone(ctx, zone, y0, y1, long_series=False, max_cases=400):
         xs = [ctx.var(f"c{ci}.x[{i}]", lo=0, hi=1000, nice=(1, 60)) for i in range(n)]
         ehq = SourceHourlyValues(create_hourly_usage_df_from_list(xs, start_date=start))
         out = ehq.convert_to_utc(local_timezone=tzobj)
+        # the same series through a usage pattern's own update rule must give the same UTC series
+        up = _bare_usage_pattern(tz, SourceHourlyValues(create_hourly_usage_df_from_list(xs, start_date=start)))
+        up.update_utc_hourly_usage_journey_starts()
+        via_up = up.utc_hourly_usage_journey_starts
+        ctx.require(list(via_up.value.index) == list(out.value.index), f"{zone} {start:%Y-%m-%d %H}h+{n}: usage pattern UTC stamps = convert_to_utc stamps",
+                    f"{[str(t) for t in via_up.value.index][:3]} vs {[str(t) for t in out.value.index][:3]}")
+        for a, b in zip(via_up.value["value"].values._data, out.value["value"].values._data):
+            ctx.eq(a, b, f"{zone} {start:%Y-%m-%d %H}h+{n}: usage pattern UTC values = convert_to_utc values")
         idx = list(out.value.index)
         cells = dict(zip([V.utc_key(t).tz_localize(None).to_pydatetime() for t in idx], out.value["value"].values._data))
         lab = f"{zone} {start:%Y-%m-%d %H}h+{n}"
